@@ -5,7 +5,9 @@
 package fixture
 
 import (
+	"bufio"
 	"compress/gzip"
+	"fmt"
 	"io"
 	"math/rand"
 	"os"
@@ -44,4 +46,37 @@ func Bad(w io.Writer, c *counter) {
 	for k := range cache { // order-dependent map iteration
 		_, _ = io.WriteString(w, k)
 	}
+}
+
+// CloseOverwrites: a deferred closure that replaces the function's error
+// result unconditionally (E1'-defer).
+func CloseOverwrites(path string) (err error) {
+	f, err := os.Open(path)
+	if err != nil {
+		return err
+	}
+	defer func() {
+		err = f.Close()
+	}()
+	_, err = io.Copy(io.Discard, f)
+	return err
+}
+
+// Lost: an error value that is built and then read by nobody (E1-built).
+func Lost(w io.Writer) error {
+	_, err := w.Write(nil)
+	if err != nil {
+		err = fmt.Errorf("wrapped: %w", err)
+	}
+	return nil
+}
+
+// Lines: a line scanner whose error is never consulted (E8-scanner-err).
+func Lines(r io.Reader) int {
+	s := bufio.NewScanner(r)
+	n := 0
+	for s.Scan() {
+		n++
+	}
+	return n
 }
